@@ -10,7 +10,7 @@ from .c16 import cmp_obs
 from .c02 import same_field
 
 REQUIRED_WITNESSES = ['C', 'C+hdr']
-BOUNDS = {'quick': 'default-accepted inputs: concrete start line + every header block to 8 bytes (responses) / 8 (requests), start-line tails to 8 symbolic bytes, second run with all 7 options symbolic; kind-crossing: every outcome of requests with the 5 response-documented options symbolic (header blocks to 6, request buffers to 7 bytes) and of responses with the 2 request-only options symbolic (header blocks to 7, response buffers to 10)',
+BOUNDS = {'quick': 'default-accepted inputs: concrete start line + every header block to 8 bytes (responses) / 8 (requests), start-line tails to 8 symbolic bytes, second run with all 7 options symbolic; the same relation on the neighbourhood templates (1-3 symbolic bytes at 17 places of complete messages) and on 2-byte windows slid over four realistic messages; kind-crossing (also on those templates and windows): every outcome of requests with the 5 response-documented options symbolic (header blocks to 6, request buffers to 7 bytes) and of responses with the 2 request-only options symbolic (header blocks to 7, response buffers to 10)',
           'thorough': 'header blocks to 10; tails to 10; kind-crossing to 8 / 9 / 13'}
 OUTSIDE = 'longer inputs'
 EXPLANATION = 'two implementation runs on the same symbolic bytes: default configuration first; where it is Complete, the run with symbolic options must be identical (reason modulo leading SP iff the response multi-space option is set). Kind-crossing compares every outcome, fields included.'
@@ -49,7 +49,7 @@ def leaf_conservative(E, params):
         v['rel'] = 'same'; v['compare'] = 'no_reason' if 'reason' in v['msg'] and False else 'all'
         e = common.entry_name(sc0.kind, 'cfg')
         v['runs'] = [{'entry': e, 'flags': 0, 'cap': sc0.cap, 'buf': v['buf']}, {'entry': e, 'flags': v['flags'], 'cap': sc0.cap, 'buf': v['buf']}]
-        if v['flags'] & 8 and sc0.kind == 'resp': v['compare'] = 'no_reason'
+        if v['flags'] & 8 and sc0.kind == 'resp': v['compare'] = 'reason_strip'
     lab = common.outcome_label(d)
     rec = {'outcome': lab, 'obligations': L.nobl, 'violations': viol, 'witnesses': {lab: 1, ('C+hdr' if d.status == 'C' and d.headers else lab): 1}}
     s = common.sample_of(E, I, d, f' | with options: {common.outcome_label(o2) if o2 else "-"}')
@@ -93,6 +93,10 @@ def jobs(tier, seed):
                 'response "HTTP/1.1 20" + every {n}-byte remainder: default vs all 128 configurations', 6, **kw)
     J += deepen(P, G, 'req-tail', lambda n: sc('req', n, prefix=b'GET ', suffix=b'TTP/1.1\r\n\r\n', api='cfg', fl=ALL_SYM, cap=1), range(T(tier, 3, 2), T(tier, 5, 7) + 1), bud,
                 'request "GET " + {n} symbolic bytes + "TTP/1.1" CRLFCRLF: default vs all 128 configurations', 3, **kw)
+    # windows at the places where the options act, inside complete messages (so that look-ahead fast paths have bytes to look at):
+    # default configuration vs all 128 configurations
+    J += neighbourhood_families(P, G, tier, fl_override=lambda kind: ALL_SYM, tag='nb128-', **kw)
+    J += sliding_families(P, G, tier, fl_override=lambda kind: ALL_SYM, tag='slide128-', **kw)
     kw = dict(fn='mirse.props.c15.leaf_crossing')
     respdoc = flags(sp_after_name='sym', obs_fold='sym', multi_sp_resp='sym', ignore_resp='sym')      # documented for responses only
     reqonly = flags(multi_sp_req='sym', ignore_req='sym')
@@ -104,4 +108,8 @@ def jobs(tier, seed):
                 'response start line + every {n}-byte header block, the 2 request-only options symbolic vs off', 6, **kw)
     J += deepen(P, G, 'cross-statusline', lambda n: sc('resp', n, api='cfg', fl=reqonly, cap=1), range(T(tier, 10, 8), T(tier, 10, 13) + 1), bud,
                 'response, every {n}-byte buffer, the 2 request-only options symbolic vs off', 9, **kw)
+    # kind-crossing on the same windows: only the options documented for the OTHER message kind are symbolic
+    other = lambda kind: respdoc if kind == 'req' else reqonly
+    J += neighbourhood_families(P, G, tier, fl_override=other, tag='nbx-', **kw)
+    J += sliding_families(P, G, tier, fl_override=other, tag='slidex-', **kw)
     return J
